@@ -179,10 +179,11 @@ def h_document_mutation(di: int, pos: int, kind: int, ri: int, vl: bool) -> bool
     g.connected_components()
   return _only_gfapy(run)
 
-AA = ["a", "b", "p", "e", "*", "", "\t", "1", "+", " ", "x", "L"]
+AA = ["a", "b", "p", "e", "*", "", "\t", "1", "+", " ", "x", "L", "v"]
 NAA = len(AA)
 ADOCS = [["S\ta\t*", "S\tb\t*", "L\ta\t+\tb\t-\t*", "P\tp\ta+,b-\t*"],
-         ["S\ta\t9\t*", "S\tb\t9\t*", "E\te\ta+\tb-\t5\t9$\t5\t9$\t*", "O\tp\ta+ b-", "U\tu\ta e"]]
+         ["S\ta\t9\t*", "S\tb\t9\t*", "E\te\ta+\tb-\t5\t9$\t5\t9$\t*", "O\tp\ta+ b-", "U\tu\ta e",
+          "U\tv\ta w", "U\tw\tb v"]]          # (two sets listing each other)
 NCALL = 29
 ALEN = vp.T(1, 2)
 
